@@ -319,6 +319,10 @@ Theorem compile_block_correct_partial :
         | RNormal st' l' vs' =>
             vs' = [] /\ exists n M', nsteps art mhost codes n M = SNext M'
                        /\ rel art fidx (map fst (c_consts sF)) nl (c_next sF) cap sF st' l' [] M' /\ frame_eq M M'
+        | RReturn st' _ =>
+            exists n M', nsteps art mhost codes n M = SNext M' /\ frame_eq M M' /\ ms_idx M' = fidx
+              /\ code_at (build_code (c_out sF ++ rest_code) xH (PositiveMap.empty N)) (ms_pc M') [IReturn]
+              /\ Forall2 repr (ms_globals M') (s_globals st') /\ mem_rel art cap (ms_mem M') (s_mem st')
         | RTrap => exists n e, nsteps art mhost codes n M = STrap e
         | RBr _ _ _ _ => False
         | _ => True
@@ -345,6 +349,10 @@ Theorem compile_loop_correct_partial :
         | RNormal st' l' vs' =>
             vs' = [] /\ exists n M', nsteps art mhost codes n M = SNext M'
                        /\ rel art fidx (map fst (c_consts sF)) nl (c_next sF) cap sF st' l' [] M' /\ frame_eq M M'
+        | RReturn st' _ =>
+            exists n M', nsteps art mhost codes n M = SNext M' /\ frame_eq M M' /\ ms_idx M' = fidx
+              /\ code_at (build_code (c_out sF ++ rest_code) xH (PositiveMap.empty N)) (ms_pc M') [IReturn]
+              /\ Forall2 repr (ms_globals M') (s_globals st') /\ mem_rel art cap (ms_mem M') (s_mem st')
         | RTrap => exists n e, nsteps art mhost codes n M = STrap e
         | RBr _ _ _ _ => False
         | _ => True
@@ -363,6 +371,7 @@ Example loops_nonvacuous :
   /\ (forall host cap m st,
         exec_instr host cap m 200 st [VI32 4; VI32 0] [] (Block None loop_body) = RNormal st [VI32 0; VI32 10] []
         /\ exec_instr host cap m 200 st [VI32 0; VI32 7] [] (Block None loop_body) = RNormal st [VI32 0; VI32 7] []
+        /\ exec_instr host cap m 200 st [VI32 3; VI32 0] [] (Block None loop_body) = RReturn st []
         /\ exec_instr host cap m 200 st [VI32 20; VI32 0] [] (Block None loop_body) = RTrap
         /\ exec_instr host cap m 20 st [VI32 20; VI32 0] [] (Block None loop_body) = RFuel).
 Proof. exact ex_loop. Qed.
